@@ -226,6 +226,41 @@ def c082(ctx):
         eu = ctx.calls(R, f, TREE + "explicit_unref$")
         ctx.order_chain(R, f, [("explicit_ref(new)", er), ("version.lock", lk), ("mem::swap", sw), ("explicit_unref(old)", eu)])
         ctx.must_pass(R, f, "explicit_unref(old)", eu, goals=P.return_points(f))
+    # every function that changes the current version (writes through the guard of LsmTree.version) follows that protocol: a trivial move
+    # keeps the file set, but the outgoing version still gives its references up when its last holder (a scan, a stalled ingest) lets go,
+    # so the incoming version needs references of its own
+    pubs = []
+    for g in sorted(ctx.prog.fns.values(), key=lambda g: g.key):
+        if g.crate != "lsmtk":
+            continue
+        dm = [p_ for p_ in P.call_points(g, r"MutexGuard.*DerefMut>::deref_mut$") if "Arc<lsmtk::tree::Version" in str(P.term_at(g, p_).get("ga"))]
+        if dm:
+            pubs.append((g, dm))
+    ctx.floor(R, "functions that replace the current version", len(pubs), 1)
+    for g, dm in pubs:
+        er = P.call_points(g, TREE + "explicit_ref$")
+        eu = P.call_points(g, TREE + "explicit_unref$")
+        ctx.check(R, g, "publish-refs-first", bool(er) and not P.order(g, er, dm), "the new version's files are referenced before the current version is replaced",
+                  "%s replaces the current version without first taking references for the new version's files: when the last holder of the "
+                  "outgoing version lets go, its unref brings files the current version uses to zero and they are moved to trash" % g.skey, pt=dm[0])
+        ctx.check(R, g, "publish-unrefs-old", bool(eu) and P.must_pass(g, eu, goals=P.return_points(g), starts=[a for d_ in dm for a in P.after(g, d_)]) is None,
+                  "the outgoing version is unreferenced after it was replaced", "%s replaces the current version and does not unreference the outgoing one on every path" % g.skey, pt=dm[0])
+    f = ctx.fn(R, TREE + "explicit_unref")
+    if f:
+        decs = P.call_points(f, r"reference_counter::ReferenceCounter.*::dec$")
+        ctx.floor(R, "explicit_unref: count decrements", len(decs), 1)
+        for pt in decs:
+            extra = []
+            for bb, lab, srcs in K.guards(f, pt):
+                names = {x.get("callee", "").rsplit("::", 1)[-1] for x in srcs if x["k"] == "call"}
+                if any(x["k"] == "call" and re.search(r"Iterator>?::next$", x["callee"]) for x in srcs):
+                    continue
+                if any(x["k"] == "call" and x["callee"].endswith("Arc::strong_count") for y in srcs if y["k"] == "bin" for o in (y["st"]["rv"]["a"], y["st"]["rv"]["b"]) for x in P.origins(f, o)):
+                    continue
+                extra.append("bb%d %s" % (bb, "/".join(sorted(names)) or "condition"))
+            ctx.check(R, f, "last-holder-always-unrefs", not extra, "the last holder's unref depends on nothing but strong_count == 1",
+                      "explicit_unref skips the decrements under a further condition (%s): a version that keeps files alive for its holders must give "
+                      "exactly those references up, no more and no fewer" % ", ".join(extra), pt=pt)
     f = ctx.fn(R, "<lsmtk::tree::VersionRef as core::ops::drop::Drop>::drop")
     if f:
         ctx.must_pass(R, f, "explicit_unref", ctx.calls(R, f, TREE + "explicit_unref$"), goals=P.return_points(f))
